@@ -21,6 +21,7 @@ EXPLANATION = (
     "are identified by their guard facts; the buffer kernel's three arms are identified by guard facts and the "
     "failing arm neither refetches nor moves the fetch position."
 )
+SHARED = [('C12', ['R7'], 'the too-small arm grows the buffer and does not move the fetch position (never skipping the message)')]
 ASSUMPTIONS = ["float arithmetic: x*F >= x for x >= 0 and F > 1", "reactor.callLater(delay, f) calls f once after delay"]
 CONS = "consumer:Consumer"
 
